@@ -21,7 +21,6 @@ declare -A DEMO=(
  [C17f_newline_skip_hoisted_out_of_retry_loop]="-p yash-syntax -p yash-semantics -E binary(~c17f)"
  [C15f_spawn_enqueues_at_front]="-p yash-executor --test c15f_spawn_fairness"
  [C20f_rejected_exec_retains_redirections]="-p yash-builtin --test c20f_exec_rejected_invocation"
- [C09f_source_not_marked_signal_handling]="-p yash-builtin --test c09f_source_sigint"
  [C14f_undo_redirs_first_to_last]="-p yash-semantics c14f"
  [C08f_stop_ends_wait_requested_job_control]="-p yash-semantics --test c08f_stopped_subshell"
  [C11f_wait_batch_marks_in_loop]="-p yash-builtin --test c11f_wait_two_traps"
